@@ -16,7 +16,7 @@ def validate(ctx, spec, consts, tf, name):
             for m in re.finditer(r'<<\s*"PROPERTY-VIOLATED",\s*"([\w.]+)",\s*"line",\s*(\d+),\s*"trace",\s*(\d+),\s*"h",\s*(\d+)\s*>>', tr["text"])]
 
 
-def run(ctx, prop, replay, spec, mc, families, trace_consts, corrupt, rule, n_blocks=None, extra_mc=()):
+def run(ctx, prop, replay, spec, mc, families, trace_consts, corrupt, rule, n_blocks=None, extra_mc=(), classify=None):
     """mc = (consts, invariants, properties, constraint, view) for the exhaustive run of <spec>.tla (SPECIFICATION <mc_spec>)."""
     ctx.build("vworker", "vdrive")
     ctx.sany(spec, spec + "_Trace")
@@ -52,7 +52,11 @@ def run(ctx, prop, replay, spec, mc, families, trace_consts, corrupt, rule, n_bl
         viol = validate(ctx, spec, trace_consts, tf, "trace-%s-%s" % (spec, fam))
         meta = scs = lines = None
         seen = set()
+        firstline = {}
         for (p, line, t, h) in viol:
+            # only the first violating block of a history is judged: later blocks may differ as a consequence
+            if firstline.setdefault(t, line) != line:
+                continue
             if meta is None:
                 meta = json.load(open(tf + ".meta.json"))
                 scs = json.load(open(tf + ".scenarios.json"))
@@ -61,6 +65,8 @@ def run(ctx, prop, replay, spec, mc, families, trace_consts, corrupt, rule, n_bl
                 continue  # first occurrence per history and property part
             seen.add((t, p))
             sig = dict(attribute(meta, t, h), property_part=p)
+            if classify:
+                sig.update(classify(json.loads(lines[line - 1]), p) or {})
             blk = meta[t - 1][h - 1]["txs"] if h - 1 < len(meta[t - 1]) else []
             acc = ["%s%s" % (x["req"]["kind"], json.dumps(x["req"]["a"], sort_keys=True)) for x in (blk or []) if x.get("deliver") and x["deliver"]["code"] == 0]
             text = "%s violated at block %d of history %s; accepted in that block: %s" % (p, h, scs[t - 1]["id"], "; ".join(acc)[:400])
